@@ -497,3 +497,21 @@ func (p *Program) GlobalStoreDword(addr, data int) {
 func (p *Program) SWaitcntGfx9(vmcnt, lgkmcnt uint32) {
 	p.sopp(12, "s_waitcnt", vmcnt&0xf|7<<4|(lgkmcnt&0xf)<<8|(vmcnt>>4&3)<<14)
 }
+
+// ---- more GCN3 instructions (barrier / wait-count kernels) ----
+
+// VCndmaskB32 : vdst = VCC[lane] ? v[vsrc1] : src0.
+func (p *Program) VCndmaskB32(vdst int, src0 Src, vsrc1 int) {
+	p.vop2(0, "v_cndmask_b32_e32", vdst, src0, vsrc1)
+}
+
+// VReadfirstlaneB32 : sdst = v[src] of the first enabled lane.
+func (p *Program) VReadfirstlaneB32(sdst int, vsrc int) {
+	p.emit(fmt.Sprintf("v_readfirstlane_b32 s%d", sdst), 0x7E000000|uint32(sdst)<<17|2<<9|uint32(256+vsrc))
+}
+
+// SLshrB32 : sdst = a >> b.
+func (p *Program) SLshrB32(sdst, a, b Src) { p.sop2(30, "s_lshr_b32", sdst, a, b) }
+
+// SOrB32 : sdst = a | b.
+func (p *Program) SOrB32(sdst, a, b Src) { p.sop2(14, "s_or_b32", sdst, a, b) }
